@@ -653,6 +653,31 @@ func buildPhases(r *h.Run, p profile) []phase {
 						if !emit(u) {
 							return
 						}
+						// few holes in an otherwise dense value list (whole 64-leaf words
+						// of the presence bitmap are full behind a hole): one hole at the
+						// first, a middle and the last key, two neighbours, the first 64
+						// keys; variable-size and fixed-size leaf arrays
+						if n := len(f.Keys); n >= 130 && n <= 2500 {
+							for hi, holes := range [][]int{{0}, {n / 3}, {n - 1}, {n / 2, n/2 + 1}, seqInts(0, 64)} {
+								for _, enc := range []string{"VarEnc", "VarEncH"} {
+									uh := &inputSpec{sc: f, opts: []h.Opt4{o}, insts: p.insts, encs: []string{enc}, tag: fmt.Sprintf("few-holes%d", hi)}
+									ids := make([]int, n)
+									for i := range ids {
+										ids[i] = 2*i + 1
+									}
+									for _, x := range holes {
+										ids[x] = 0
+									}
+									uh.explicitIDs = ids
+									if p.needQs {
+										uh.qs = manyQueries(f.Keys)
+									}
+									if !emit(uh) {
+										return
+									}
+								}
+							}
+						}
 					}
 				}
 				if p.nilVals {
@@ -674,6 +699,14 @@ func buildPhases(r *h.Run, p profile) []phase {
 		}})
 	}
 	return append(phases, latePhases...)
+}
+
+func seqInts(from, n int) []int {
+	r := make([]int, n)
+	for i := range r {
+		r[i] = from + i
+	}
+	return r
 }
 
 func containsStr(l []string, s string) bool {
